@@ -28,7 +28,7 @@ class C13(ChanSpec):
     rule = ("per scenario: 1-2 listen ops (Listen + Async) on one thread, 0-2 dials (each waits until its listener accepts; 1/4 followed by a peer hang-up) on another, a Shutdown thread that "
             "1/2 of the time first waits for 1-2 connections, plus (1/6 each) a Listener.Close before Shutdown, a Listener.Close racing it from its own thread, or Close / re-Listen of the "
             "same url / Close of the old listener again; 1/5 a Listen+Async after Shutdown; 1/5 of the listen ops meet a factory that refuses once, Async is retried on the same listener; 1/4 of the scenarios give every channel an active handler that waits for a greeting of the peer; random schedules with stickiness 0/50/80/95 and DFS with 2-3 preemptions; plus 8 (thorough 150) runs over the real TCP factory on the loopback interface: 0-3 client "
-            "connections, Shutdown right after Async or once the connections are active; observed: Sync's error, every client sees its connection closed, a new dial is refused, inactive = active")
+            "connections, Shutdown right after Async or once the connections are active; observed: Sync's error, every client sees its connection closed, a new dial is refused, inactive = active; 1/5 of the scenarios have inactive handlers that panic; outgoing connections (Bootstrap.Connect) from goroutines of their own, also after Shutdown")
     assumptions = ("the executor runs every submitted action eventually", "Accept returns an error exactly when the acceptor has been closed")
     modelled_not_verified = ("sync.Map", "sync.Mutex", "context.WithCancel", "transport/tcp acceptor (mock)", "Executor")
 
